@@ -10,7 +10,7 @@ let handle (line : string) : string =
         let l = parse_link ls in
         if Stdlib.List.length l > 7 then "SKIP" else
         let sg = if signs = "0" then [] else Stdlib.List.init (String.length signs) (fun i -> signs.[i] = '+') in
-        if crossing_signs l <> Some sg then "SIGNS-DIFFER" else
+        if kh_crossing_signs l <> Some sg then "SIGNS-DIFFER" else
         let segs = Stdlib.List.concat_map (fun h ->
           Stdlib.List.map (fun red ->
             match lee_check l sg (z_of_string (string_of_int h)) red with
